@@ -122,6 +122,7 @@ Section Model.
     | Trigger cls obj => (trigger_all (mk_ev i cls obj) st, [])
     | Listen sid level timeout now => listen i sid level timeout now st
     | Tick now => tick_all i now st
+    | Disable | Enable => (st, [])          (* the flag lives in gstep below; the sessions are not touched *)
     end.
 
   Fixpoint run_from (i : nat) (st : state) (tr : list event) : state * list output :=
@@ -134,6 +135,27 @@ Section Model.
     end.
 
   Definition run (tr : list event) : state * list output := run_from 0%nat [] tr.
+
+  (* with core/events/handlers.py:_enabled: trigger() does nothing while it is False *)
+  Definition gstep (i : nat) (x : bool * state) (e : event) : (bool * state) * list output :=
+    let '(en, st) := x in
+    match e with
+    | Disable => ((false, st), [])
+    | Enable => ((true, st), [])
+    | Trigger _ _ => if en then let '(st', o) := step i st e in ((en, st'), o) else ((en, st), [])
+    | _ => let '(st', o) := step i st e in ((en, st'), o)
+    end.
+
+  Fixpoint grun_from (i : nat) (x : bool * state) (tr : list event) : (bool * state) * list output :=
+    match tr with
+    | [] => (x, [])
+    | e :: r =>
+        let '(x1, o1) := gstep i x e in
+        let '(x2, o2) := grun_from (S i) x1 r in
+        (x2, o1 ++ o2)
+    end.
+
+  Definition grun (tr : list event) : (bool * state) * list output := grun_from 0%nat (true, []) tr.
 End Model.
 
 (* the program of the repaired reset_and_wait (fixes/C11-*.diff) and of the code before the repair *)
